@@ -92,6 +92,12 @@ def cfg_named(name):
                            'copy_property_elements', 'clear_all_props', 'clear_props']})
     if name == 'plain':
         return {}
+    if name == 'ovmb':
+        BR = 'OpenVolumeMesh::IO::detail::BinaryFileReader'
+        k = cfg_named('kernel')
+        k['drop_fields'][BR] = ['geometry_reader_', 'prop_codecs_', 'props_']
+        k['exceptions'] = True
+        return k
     raise Cxx2cError('unknown config ' + name)
 
 GH = {'Entity_Vertex': 'ghost_v', 'Entity_Edge': 'ghost_e', 'Entity_HalfEdge': 'ghost_he', 'Entity_Face': 'ghost_f',
@@ -103,7 +109,8 @@ def ghost_stub_bodies(unit, ob=None):
     out = []
     for cn, proto in unit.em.stub_protos.items():
         m = re.match(r'^ResourceManager__(resize_props|reserve_props|entity_deleted|swap_property_elements|copy_property_elements|clear_props)_(\w+)$', cn)
-        custom = [b for q, b in (ob.stubs.items() if ob else []) if re.sub(r'[^A-Za-z0-9_]', '_', q.replace('OpenVolumeMesh::', '').replace('::', '__')) == cn]
+        norm = lambda x: re.sub(r'_+', '_', re.sub(r'[^A-Za-z0-9_]', '_', x.replace('OpenVolumeMesh::', '')))
+        custom = [b for q, b in (ob.stubs.items() if ob else []) if norm(q) == norm(cn)]
         if custom:
             out.append(proto + '\n' + custom[0]); continue
         if cn == 'ResourceManager__clear_all_props':
